@@ -550,7 +550,7 @@ func (e *Engine) concreteIndex(fr *frame, t *Term, ty types.Type) int {
 		return int(t.I.Int64())
 	}
 	// enumerate feasible values lazily
-	for n := 0; n < 200; n++ {
+	for n := 0; n < 40; n++ {
 		v, ok := e.someValue(t)
 		if !ok {
 			panic(pathEnd{kind: "infeasible"})
@@ -571,7 +571,7 @@ func (e *Engine) concreteIndex(fr *frame, t *Term, ty types.Type) int {
 			return int(v.Int64())
 		}
 	}
-	panic(engineErr("symbolic index with more than 200 feasible values at %s", e.stack(fr)))
+	panic(engineErr("symbolic index with more than 40 feasible values at %s", e.stack(fr)))
 }
 
 func (e *Engine) indexAddr(fr *frame, in *ssa.IndexAddr) Value {
